@@ -145,15 +145,15 @@ func c01Reference(p *spec.C01Case) c01Expect {
 // ---- generator ----
 
 var (
-	c01Core  = []string{"1", "01", "+1", "0", "2", "-1", "", "x", "1.0", "99999999999999999999", "١", "1 "}
-	c01Ver   = []string{"1", "2", "3", "0", "4", "", "abc", "1e3", "99999999999999999999", "-1", "+2", "02"}
+	c01Core  = []string{"1", "01", "+1", "0", "2", "-1", "", "x", "1.0", "99999999999999999999", "١", "1 ", "0x1", "0b1", "0o1", "1_", "0_1", "１", "1e0", "true"}
+	c01Ver   = []string{"1", "2", "3", "0", "4", "", "abc", "1e3", "99999999999999999999", "-1", "+2", "02", "8", "10", "010", "012", "0x1", "0X2", "0b1", "0b10", "0o1", "0o10", "1_0", "1_", "0x8", "0xa", "0xA", "２", "2.0", " 2", "2 ", "1e1", "-0", "+0", "00"}
 	c01Net   = []string{"tcp", "unix", "", "udp", "TCP", "tcp4", "unixgram", "junk", "unix "}
 	c01AddrT = []string{":1234", "127.0.0.1:80", "127.0.0.1:99999", "[::1]:1", "nohost", "", "127.0.0.1", "127.0.0.1:-1", "1.2.3.4:http", "[::1", "999.1.1.1:1"}
 	c01AddrU = []string{"/p/x.sock", "", "relative.sock", "/" + strings.Repeat("a", 200), "@abstract", "/tmp/with space"}
 	c01Proto = []string{"\x00absent", "netrpc", "grpc", "", "GRPC", "junk", "netrpc "}
 	c01Mux   = []string{"\x00absent", "true", "false", "1", "0", "T", "yes", "", "TRUE", "t"}
 	c01Wrap  = []string{"lf", "crlf", "lead-blank", "trail-blank", "tabs", "noeol-exit", "noeol-close", "noeol-open", "nul-prefix", "nul-inside", "oversize", "empty-line-first", "second-line", "only-newline", "empty"}
-	c01SetsL = []string{"legacy1", "versioned12", "v0", "both123"}
+	c01SetsL = []string{"legacy1", "versioned12", "v0", "both123", "versioned8_10"}
 	c01TLSL  = []string{"none", "static", "auto"}
 )
 
